@@ -41,7 +41,9 @@ def _resolve(q: str):
     return getattr(importlib.import_module(mod), name)
 
 
-def build(x: dict):
+def build(x: dict, how: str = "ctor"):
+    """how = "inplace": pydantic models get only their required fields at construction; the defaulted ones are brought to
+    their value on the live object (containers filled in place, scalars assigned) - see spec/Wire.tla."""
     t, v, k = x["t"], x["v"], x["k"]
     if t == "int":
         return int(v)
@@ -59,15 +61,31 @@ def build(x: dict):
         cls, member = v.rsplit(".", 1)
         return _resolve(cls)[member]
     if t == "list":
-        return [build(c) for c in k]
+        return [build(c, how) for c in k]
     if t == "tuple":
-        return tuple(build(c) for c in k)
+        return tuple(build(c, how) for c in k)
     if t == "set":
-        return {build(c) for c in k}
+        return {build(c, how) for c in k}
     if t == "dict":
-        return {build(p["k"][0]): build(p["k"][1]) for p in k}
+        return {build(p["k"][0], how): build(p["k"][1], how) for p in k}
     if t == "obj":
-        return _resolve(v)(**{f["v"]: build(f["k"][0]) for f in k})
+        cls = _resolve(v)
+        kwargs = {f["v"]: build(f["k"][0], how) for f in k}
+        if how != "inplace" or not (isinstance(cls, type) and issubclass(cls, pydantic.BaseModel)):
+            return cls(**kwargs)
+        later = {n: kwargs.pop(n) for n in list(kwargs) if not cls.model_fields[n].is_required()}
+        o = cls(**kwargs)
+        for n, val in later.items():
+            cur = getattr(o, n)
+            if isinstance(cur, list) and isinstance(val, list):
+                for item in val:
+                    cur.append(item)
+            elif isinstance(cur, dict) and isinstance(val, dict):
+                for key, item in val.items():
+                    cur[key] = item
+            else:
+                setattr(o, n, val)
+        return o
     raise ValueError(t)
 
 
@@ -207,7 +225,7 @@ def run_case(c: dict, scratch: Path, n: int) -> dict:
     r = {"built": "ok", "sent": NONE, "sent2": NONE, "enc": "ok", "dec": "skipped", "back": NONE, "back2": NONE,
          "frames": 0, "error": ""}
     try:
-        m, m2 = build(c["msg"]), build(c["msg2"])
+        m, m2 = build(c["msg"], c.get("how", "ctor")), build(c["msg2"])
         r["sent"], r["sent2"] = dump(m), dump(m2)
     except Exception as e:
         r.update(built="raised", error=_err(e))
@@ -353,14 +371,16 @@ def run(ctx):
     ctx.coverage.update({
         "evaluations": len(cases), "distinct_nontrivial": sum(1 for c in cases if c["msg"]["k"]), "exhaustive": True,
         "cases_per_protocol": per_proto, "message_classes": sorted(classes), "message_classes_count": len(classes),
-        "round_trips_completed": round_tripped, "out_of_domain_cases": sum(1 for c in cases if not c["ok"]),
+        "round_trips_completed": round_tripped, "built_in_place_cases": sum(1 for c in cases if c.get("how") == "inplace"), "out_of_domain_cases": sum(1 for c in cases if not c["ok"]),
         "rule": "spec/Wire.tla!Cases: every message class of cascade.shm.api (sizes/free space at 0, 1, 255, 256, 2^31-1, 2^31, "
                 "2^32-1, 2^32, 2^40, 2^63-1; ASCII keys from empty to 255 characters; out-of-domain: -1, 2^64, a non-ASCII key), "
                 "every cascade.executor.msg class (indices up to 2^65, optional fields absent/present, empty and non-ASCII texts, "
                 "payloads of 0/3/320 bytes) through ser_message, callback, ReliableSender and send_data framing, ControllerReport, "
                 "every gateway request/response pair through request_response + parse_request + serialize_response, and job "
                 "instances (empty, multi-output, keyword+positional edges, static inputs, serdes, ext_outputs) through the job "
-                "file; enumerated by TLC; non-trivial = the message has at least one field; TLC evaluates Wire!Post "
+                "file; job files and job-carrying gateway requests additionally with every defaulted pydantic field (serdes, "
+                "ext_outputs, entrypoint, func, needs_gpu) filled in on the live object instead of through the constructor; "
+                "enumerated by TLC; non-trivial = the message has at least one field; TLC evaluates Wire!Post "
                 "(structural equality of value trees) on every (case, result)",
         "clauses": ["in_domain_message_rejected", "decoding_raised", "decoded_message_differs", "decoded_response_differs",
                     "acknowledgement_differs", "wrong_frame_count", "out_of_domain_value_altered", "harness_built_other_message",
@@ -371,7 +391,7 @@ def run(ctx):
     for i, names in sorted(bad.items()):
         c, r = cases[i - 1], results[i - 1]
         cls = c["msg"]["v"].rsplit(".", 1)[-1]
-        ctx.violate("post:" + "+".join(sorted(names)) + f":{c['proto']}:{cls}",
+        ctx.violate("post:" + "+".join(sorted(names)) + f":{c['proto']}:{cls}" + (":built_in_place" if c.get("how") == "inplace" else ""),
                     f"{c['proto']} encoding of {cls} violates {sorted(names)}: {r['error'] or 'no exception'}",
                     {"case": c, "result": r}, clause="+".join(sorted(names)))
     ctx.assumptions += ["bounded domain as stated in `rule`; zmq itself is replaced by frame-recording stand-ins (the encoders, "
